@@ -13,7 +13,7 @@
                               (balance check), apply_manifest_compaction, apply_moving_compaction,
                               from_manifest (tree-vs-manifest check)
      lsmtk/src/kvs/mod.rs     _memtable_thread (memtable checksum check + ingest), recover_one
-     lsmtk/src/verifier.rs    setsum_from_info, verify_one, verify_gc, ManifestVerifier::verify,
+     lsmtk/src/verifier.rs    setsum_from_info, verify_one, verify_sst, verify_gc, ManifestVerifier::verify,
                               the chaining of process_one through the verify manifest's 'O'
    Inputs (oracles) of the model, validated per step by the correspondence check:
      where the multi-builder cuts its output into files (list of lengths), when the manifest rolls
@@ -57,6 +57,7 @@ Inductive code :=
 | CDataConstruction   (* "data construction" *)
 | CGcLogic            (* logic_error "gc key less than input" / "gc iterator out of sync with inputs" *)
 | CNotFound           (* a named sst cannot be opened *)
+| CBadSst             (* "sst does not hold the entries its name stands for" *)
 | CDuplicate          (* duplicate_sst *)
 | CStoreBalance       (* compaction_finish: "setsum does not balance input = output + discard" *)
 | CMemtable           (* "Memtable checksum inconsistent" *)
@@ -307,6 +308,35 @@ Section WithHash.
           if state_eqb (compute_setsum tree') (mO m2) then Ok (mkBS tree' m2 (add_disk (bdisk b) f)) else Err CTreeMani))
     end.
 
+  (* the same with ANY number of logs: KeyValueStore::recover folds recover_one over the log.<n>
+     files in the order of their numbers; every non-empty log that the manifest does not list
+     already becomes an sst and its own transaction, which starts from the output of the previous
+     one (the manifest's 'O' is read inside recover_one); an empty log is moved to the trash without
+     a transaction.  (Two non-empty logs are what a process leaves that dies while it flushes the
+     immutable memtable after the new memtable's log took writes.) *)
+  Definition recover_one (b : bstore) (log : list entry) (roll : bool) : res bstore :=
+    match log with
+    | [] => Ok b
+    | _ :: _ =>
+        let f := build_file (sort_entries log) in
+        let setsum := bsum f in
+        if existsb (state_eqb setsum) (mstrs (bman b)) then Ok b
+        else
+          let input := mO (bman b) in
+          bind (sub_r zero setsum) (fun discard =>
+          bind (sub_r input discard) (fun output =>
+          let t := mkT input output discard [setsum] [] None in
+          Ok (mkBS (btree b ++ [f]) (apply_edit (bman b) t roll) (add_disk (bdisk b) f))))
+    end.
+  Fixpoint recover (b : bstore) (logs : list (list entry * bool)) : res bstore :=
+    match logs with
+    | [] => Ok b
+    | (log, roll) :: r => bind (recover_one b log roll) (fun b' => recover b' r)
+    end.
+  Definition reopen_logs (b : bstore) (logs : list (list entry * bool)) : res bstore :=
+    bind (recover (mkBS (btree b) (rollover (bman b)) (bdisk b)) logs) (fun b' =>
+    if state_eqb (compute_setsum (btree b')) (mO (bman b')) then Ok b' else Err CTreeMani).
+
   (* ---- histories ---- *)
   Inductive bop :=
   | BFlush (mem : list entry) (l : N) (roll : bool)
@@ -314,7 +344,8 @@ Section WithHash.
   | BCompact (inputs : list state) (lens : list nat) (roll : bool)
   | BGc (inputs : list state) (lens : list nat) (roll : bool)
   | BMove (input : state)
-  | BReopen (log : list entry) (roll : bool).
+  | BReopen (log : list entry) (roll : bool)
+  | BReopenLogs (logs : list (list entry * bool)).
 
   Definition bstep (b : bstore) (o : bop) : res bstore :=
     match o with
@@ -324,6 +355,7 @@ Section WithHash.
     | BGc inputs lens roll => gc b inputs lens roll
     | BMove input => move b input
     | BReopen log roll => reopen b log roll
+    | BReopenLogs logs => reopen_logs b logs
     end.
 
   Fixpoint brun (b : bstore) (ops : list bop) : res bstore :=
@@ -371,6 +403,18 @@ Section WithHash.
     let rest := names (filter (fun f => negb (is_input inputs f)) (btree b)) in
     forallb (out_ok rest (bdisk b)) outs && nodup_states (map bsum outs) && nodup_states inputs.
 
+  Fixpoint recover_accepted (b : bstore) (logs : list (list entry * bool)) : bool :=
+    match logs with
+    | [] => true
+    | (log, roll) :: r =>
+        match log with
+        | [] => true
+        | _ :: _ => let f := build_file (sort_entries log) in
+                    existsb (state_eqb (bsum f)) (mstrs (bman b)) || outs_ok b [] [f]
+        end &&
+        match recover_one b log roll with Ok b' => recover_accepted b' r | _ => true end
+    end.
+
   Definition accepted (b : bstore) (o : bop) : bool :=
     match o with
     | BFlush mem _ _ => outs_ok b [] [build_file (sort_entries mem)]
@@ -396,6 +440,7 @@ Section WithHash.
     | BReopen (e :: log) _ =>
         let f := build_file (sort_entries (e :: log)) in
         existsb (state_eqb (bsum f)) (mstrs (bman b)) || outs_ok b [] [f]
+    | BReopenLogs logs => recover_accepted (mkBS (btree b) (rollover (bman b)) (bdisk b)) logs
     end.
   Fixpoint all_accepted (b : bstore) (ops : list bop) : bool :=
     match ops with
@@ -495,6 +540,18 @@ Section WithHash.
     bind (vgc_loop (coll input) input output zero) (fun computed =>
     if state_eqb computed discard then Ok tt else Err CGcDiscard))).
 
+  (* verify_sst over the ssts an edit adds: recompute the setsum of the entries the file holds and
+     compare it with the file's name *)
+  Fixpoint verify_ssts (disk : list bfile) (l : list state) : res unit :=
+    match l with
+    | [] => Ok tt
+    | x :: r =>
+        match lookup disk x with
+        | None => Err CNotFound
+        | Some es => if state_eqb (builder_setsum es) x then verify_ssts disk r else Err CBadSst
+        end
+    end.
+
   Fixpoint parse_all (l : list (list N)) : list state :=
     match l with
     | [] => []
@@ -521,10 +578,11 @@ Section WithHash.
           | Some None => Err CBadL
           end) (fun logs =>
     if negb (state_eqb discard computed) then Err CBadDiscard else
+    bind (verify_ssts disk (parse_all (radds e))) (fun _ =>
     bind (if negb (state_eqb discard zero) && negb (match rrms e with [] => true | _ => false end)
           then verify_gc disk (parse_all (rrms e)) (parse_all (radds e)) discard else Ok tt) (fun _ =>
     bind (sub_r (vacc st) computed) (fun acc' =>
-    Ok (mkV false acc' (Some outputs) rm2 logs))))))))).
+    Ok (mkV false acc' (Some outputs) rm2 logs)))))))))).
 
   Fixpoint vloop (disk : list bfile) (st : vst) (es : list rtxn) : res vst :=
     match es with
@@ -547,6 +605,11 @@ Section WithHash.
     | [] => Ok acc
     | fr :: r => bind (verify_one disk fr acc) (fun '(acc', _, _) => verify_frags disk r acc')
     end.
+
+  (* LsmVerifier::verify: list_mani_fragments, then `entries.pop(); entries.pop();` - the newest
+     numbered fragment and the live MANIFEST are not judged by a pass *)
+  Definition verify_pass (disk : list bfile) (frs : list (list rtxn)) (acc : state) : res state :=
+    verify_frags disk (removelast (removelast frs)) acc.
 
   (* ManifestVerifier::verify(entry) *)
   Record mvst := mkMV { mfirst : bool; macc : state; mret : list (state * state * state) }.
